@@ -140,7 +140,7 @@ def c15c(ctx):
     ok = len(y_pop) == 1 and same(y_pop[0][1].value.args[0], 'next_result')
     if ok:
         w = enclosing(y_pop[0][1], ast.While)
-        ok = w is not None and unparse(w.test).replace(' ', '') == 'next_resultinresults'
+        ok = w is not None and same(w.test, 'next_resultinresults')
     ctx.check(ok, 'ThreadPool._get_results:drain', 'parked values are drained with `while next_result in results: yield results.pop(next_result)`', gr)
     # next_result += 1 after each yield (three places: two in _get_results, consumer loops in map_each)
     for fn, label in ((gr, 'ThreadPool._get_results'), (me, 'ThreadPool.map_each')):
